@@ -528,6 +528,27 @@ fn apply_edit(
             None => false,
         },
         // rename the second parameter of the K-th fn
+        // change the visibility of the K-th fn / struct / enum / type (the user narrows what the generator made `pub`)
+        "vis" => match nth_where(slots, num(1), |s| {
+            matches!(s.item, syn::Item::Fn(_) | syn::Item::Struct(_) | syn::Item::Enum(_) | syn::Item::Type(_))
+        }) {
+            Some(i) => {
+                let v: syn::Visibility = match num(2) % 3 {
+                    0 => syn::Visibility::Inherited,
+                    1 => parse_quote!(pub(crate)),
+                    _ => parse_quote!(pub(super)),
+                };
+                match &mut slots[i].item {
+                    syn::Item::Fn(x) => x.vis = v,
+                    syn::Item::Struct(x) => x.vis = v,
+                    syn::Item::Enum(x) => x.vis = v,
+                    syn::Item::Type(x) => x.vis = v,
+                    _ => {}
+                }
+                true
+            }
+            None => false,
+        },
         "param" => match nth_where(slots, num(1), |s| matches!(s.item, syn::Item::Fn(_))) {
             Some(i) => {
                 if let syn::Item::Fn(func) = &mut slots[i].item {
